@@ -32,6 +32,7 @@ RULE = ("four kinds of history: (overlap) the C11 case streams, with the default
         "are plain locatables built through the constructor or the property setters; the caller's PeekableIterator subclass "
         "may read the iterator it is handed through iter() or .next(). Non-trivial: at least 3 consumer actions with no error.")
 ASSUMPTIONS = [
+    "the overlap clause is claimed, proved and judged for LocatableOverlapIterator; LocatableByAlleleOverlapIterator as written pulls and discards whole positional groups that have nothing from the first input inside one call (Example demo_allele_subclass_pulls_whole_groups), so for it only the pull counts are compared with the model",
     "overlap inputs are list-backed counting iterators; the bound is claimed for histories without a raised error (a report loses the group in progress)",
     "scheme-less reader cases use Silent/Lenient stringency (parsing never raises); Strict reader cases use the built-in scheme gdc-1.0.0 with lines whose parsing raises MafFormatException before the next line is pulled (which physical lines fail is part of the case; the model takes it as given)",
     "writer cases use a header without version pragma (optionally declaring a sort order); only MafWriter.__iadd__ is modelled (constructor output is observed and subtracted); an unsorted writer = one for which the caller did not ask for sorting (assume_sorted True or default), whatever order the header declares",
